@@ -318,8 +318,20 @@ def case_multi(cls, params, rec):
 	start = params["start"]
 	mon = gen.Immutable(X=X, **watch)
 	sparg = spacing if isinstance(spacing, int) else list(spacing)
+	margs_before = list(margs)
 	st, val = gen.call(ersatz.multisubstitute, X, margs, sparg, start=start,
 		alphabet=list(alpha(A)))
+	if (not isinstance(spacing, int) and sparg != list(spacing)) or len(
+		margs) != len(margs_before) or any(a is not b for a, b in zip(margs,
+		margs_before)):
+		# the caller's list objects are arguments like the tensors: a call
+		# that rewrites them makes the next call with the same list edit
+		# other positions than the caller asked for
+		rec.violation(cls, params, {"what": "the caller's spacing / motif "
+			"list was modified by the call", "spacing_before": list(spacing)
+			if not isinstance(spacing, int) else spacing,
+			"spacing_after": sparg}, mech="C01/caller-list-modified")
+		return
 	if mon.changed():
 		rec.violation(cls, params, {"what": "caller tensor modified",
 			"tensors": mon.changed()}, mech="C01/input-mutated")
